@@ -112,8 +112,9 @@ def make_header(ilines, xlines, samples, tracecount, hw_info, bits_per_voxel, bl
         buffer[24:28] = np_float_to_bytes_signed(min_il)
 
         if not unstructured:
-            buffer[32:36] = np_float_to_bytes_signed(xlines[1] - xlines[0])
-            buffer[36:40] = np_float_to_bytes_signed(ilines[1] - ilines[0])
+            # (axes may come as unsigned or narrow integer arrays: take the difference as a signed 64-bit integer)
+            buffer[32:36] = np_float_to_bytes_signed(np.int64(xlines[1]) - np.int64(xlines[0]))
+            buffer[36:40] = np_float_to_bytes_signed(np.int64(ilines[1]) - np.int64(ilines[0]))
         else:
             buffer[32:36] = np_float_to_bytes_signed(np.int32(geom.xl_step))
             buffer[36:40] = np_float_to_bytes_signed(np.int32(geom.il_step))
